@@ -70,6 +70,10 @@ def _worker(arg):
     return res
 
 
+def _worker_chunk(args):
+    return [_worker(a) for a in args]
+
+
 def run_cases(modname, cases, rep, nproc=None, chunksize=1):
     """cases: list of JSON-serialisable dicts.  The module's run_case(case) returns
        {key, nontrivial, sample, counts:{name:n}, findings:[{signature, what, replay, no_input?}],
@@ -87,9 +91,10 @@ def run_cases(modname, cases, rep, nproc=None, chunksize=1):
         pool = None
     else:
         pool = ctx.Pool(min(nproc, len(cases)))
-        it = pool.imap_unordered(_worker, args, chunksize)
+        chunks = [args[i:i + chunksize] for i in range(0, len(args), chunksize)]
+        it = pool.imap_unordered(_worker_chunk, chunks)
     # a worker that dies (killed, crashed interpreter) loses its task: never wait for ever
-    stall = max([int(c.get("_timeout", CASE_TIMEOUT)) for c in cases]) + 120
+    stall = max([int(c.get("_timeout", CASE_TIMEOUT)) for c in cases]) * max(1, chunksize) + 120
 
     def _results():
         if pool is None:
@@ -97,7 +102,7 @@ def run_cases(modname, cases, rep, nproc=None, chunksize=1):
             return
         while True:
             try:
-                yield it.next(timeout=stall)
+                yield from it.next(timeout=stall)
             except StopIteration:
                 return
             except mp.TimeoutError:
